@@ -908,14 +908,65 @@ func c11Callbacks(r *core.Run, rel, name string, m *ssa.Function, idF core.Field
 			wrappers[call] = call
 		}
 	}
+	// state = number of fan-outs so far (0, 1, 2+) + 3 * what a nil test has established about the
+	// error value a return hands back (0 unknown, 1 nil, 2 non-nil): `if err == nil { fan out };
+	// return err` is a success return with one fan-out and an error return with none
+	returned := map[ssa.Value]bool{}
+	for _, ret := range core.Returns(m) {
+		if len(ret.Results) == 1 {
+			returned[core.Strip(ret.Results[0])] = true
+		}
+	}
 	fl := &core.Flow{Fn: m, Entry: core.StateSet(0).Add(0)}
 	fl.Transfer = func(in ssa.Instruction, s int) core.StateSet {
-		if isFanout(in) && s < 2 {
+		if isFanout(in) && s%3 < 2 {
 			s++
 		}
 		return core.StateSet(0).Add(s)
 	}
-	res := fl.Run()
+	fl.Branch = func(iff *ssa.If, succ int, s int) (int, bool) {
+		ci := core.Cond(iff.Cond)
+		if ci.Kind != "nilcmp" || !returned[core.Strip(ci.X)] {
+			return s, true
+		}
+		truth := succ == 0
+		if ci.Negate {
+			truth = !truth
+		}
+		k := 2
+		if (ci.Op == token.EQL) == truth {
+			k = 1
+		}
+		return s%3 + 3*k, true
+	}
+	fl.EvalBoolAt = func(v ssa.Value, s int) int8 {
+		if !returned[core.Strip(v)] {
+			return 0
+		}
+		switch s / 3 {
+		case 1:
+			return 2 // nil
+		case 2:
+			return 1 // non-nil
+		}
+		return 0
+	}
+	res0 := fl.Run()
+	// fold the nil-ness component away again
+	fold := func(ss core.StateSet) core.StateSet {
+		var out core.StateSet
+		for _, x := range ss.List() {
+			out = out.Add(x % 3)
+		}
+		return out
+	}
+	res := &core.FlowResult{Before: map[ssa.Instruction]core.StateSet{}, RetFlag: map[*ssa.Return][3]core.StateSet{}}
+	for in, ss := range res0.Before {
+		res.Before[in] = fold(ss)
+	}
+	for ret, rf := range res0.RetFlag {
+		res.RetFlag[ret] = [3]core.StateSet{fold(rf[0]), fold(rf[1]), fold(rf[2])}
+	}
 	for _, ret := range core.Returns(m) {
 		st := res.Before[ret]
 		if st.Empty() {
